@@ -533,8 +533,9 @@ impl Pool
 										for (index, desc, how) in crash_records.drain(..)
 										{
 											let case: Value = serde_json::from_str(&desc).unwrap_or(Value::String(desc.clone()));
-											let sig = format!("crash:{}", how);
-											let size = desc.len() as u64;
+											let hint = case.get("sig_hint").and_then(|h| h.as_str()).map(|h| format!(":{h}")).unwrap_or_default();
+											let sig = format!("crash:{}{}", how, hint);
+											let size = case.get("size").and_then(|h| h.as_u64()).unwrap_or(desc.len() as u64);
 											r.outcome("crashed");
 											r.violation(&sig, size, || case.clone(), || format!("worker died ({how}) while running case #{index} of job {job}"));
 										}
